@@ -95,6 +95,9 @@ def len_formula(k, lo, hi, add, op, n):
     return None
 
 
+_LINE_PRED = {}
+
+
 class Frame:
     def __init__(self, fn, mod, selfav, top=False):
         self.fn, self.mod, self.selfav, self.top = fn, mod, selfav, top
@@ -204,6 +207,14 @@ class Scanner:
         names = {n.id for n in ast.walk(expr) if isinstance(n, ast.Name)}
         if 'line' not in names:
             return False
+        key = (ast.dump(expr), self.fr.fn)
+        if key in _LINE_PRED:
+            return _LINE_PRED[key]
+        r = self._line_predicate_false(expr)
+        _LINE_PRED[key] = r
+        return r
+
+    def _line_predicate_false(self, expr):
         for n in ast.walk(expr):
             if isinstance(n, ast.Attribute) and isinstance(n.value, ast.Name) and n.value.id == 'self':
                 return False
